@@ -682,6 +682,13 @@ def run(ctx):
             lines[i] = l + " " + o.split()[1][5:]
         elif l.startswith("readdir "):
             lines[i] = l + " t4:2e"       # open failed: the model must fail the same way before looking at the records
+    # a path the harness' sandbox guard refuses (e.g. `..` leading out of the sandbox) is not executed by the
+    # implementation at all (`bad-op`, no state change): such cases are no evidence either way and are dropped
+    keep = [i for i, o in enumerate(twin) if o != "bad-op"]
+    ctx.extra["refused_by_sandbox_guard"] = len(twin) - len(keep)
+    metas = [metas[i] for i in keep]
+    lines = [lines[i] for i in keep]
+    twin = [twin[i] for i in keep]
     judge = Judge(ctx, metas, twin, lines, exe)
     C.correspond(ctx, "fs", lines, [exe], [drv], judge, sig_of, timeout=1500)
     # coverage accounting
